@@ -25,12 +25,17 @@ def special_defs():
     defs.append(("OS1", {"k": "oct", "con": None}))
     defs.append(("OS2", {"k": "oct", "con": (0, 65535, False)}))
     defs.append(("OS3", {"k": "oct", "con": (0, 65536, False)}))
+    defs.append(("OS4", {"k": "oct", "con": (1, 65536, False)}))     # 65536 values, upper bound 64K: general length form (X.691 11.9.4.2)
+    defs.append(("OS5", {"k": "oct", "con": (65530, 65536, False)}))
+    defs.append(("SO4", {"k": "seqof", "con": (1, 65536, False), "el": {"k": "bool"}}))
     defs.append(("CH1", {"k": "choice", "ms": [("a", {"k": "int", "con": None, "tag": ("CONTEXT", 62, None)}, False),
                                                ("b", {"k": "bool", "tag": ("CONTEXT", 63, None)}, False),
                                                ("c", {"k": "null", "tag": ("APPLICATION", 16384, None)}, False),
                                                ("d", {"k": "oct", "con": None, "tag": ("PRIVATE", 0, None)}, False),
                                                ("e", {"k": "int", "con": (0, 7, False)}, False)]}))
-    defs.append(("SQ1", {"k": "seq", "ms": [("m%d" % j, {"k": "bool", "tag": ("CONTEXT", j, None)}, True) for j in range(9)]}))
+    defs.append(("SQ1", {"k": "seq", "ms": [("m%d" % j, {"k": "bool", "tag": ("CONTEXT", j, None)}, True) for j in range(11)]
+                                           + [("mand", {"k": "bool", "tag": ("CONTEXT", 20, None)}, False),
+                                              ("tail", {"k": "bool", "tag": ("CONTEXT", 21, None)}, True)]}))
     return defs
 
 
@@ -56,9 +61,19 @@ def special_values(tn, tree, rng, tier):
     elif tn == "SO1":
         ns = [0, 1, 127, 128, 129] + ([16383, 16384, 16385, 32768, 65536, 65537, 70000] if tier == "thorough" else [16383, 16384, 16385])
         out = [("L", [bool((i * 7) % 3 == 0) for i in range(n)]) for n in ns]
-    elif tn in ("OS1", "OS2", "OS3"):
+    elif tn in ("OS1", "OS2", "OS3", "OS4", "OS5"):
         ns = [0, 1, 127, 128, 255, 256] + ([16383, 16384, 16385, 32768, 49152, 65535, 65536, 65537, 70000] if tier == "thorough" else [16383, 16384])
+        lo, hi = tree[2], tree[3]
+        if tn == "OS5":
+            ns = [65530, 65536] if tier == "thorough" else [65530]
+        ns = [n for n in ns if n >= lo and (hi is None or n <= hi)]
         out = [bytes((i * 31 + n) % 256 for i in range(n)) for n in ns]
+    elif tn == "SO4":
+        out = [("L", [bool((i * 5) % 3 == 0) for i in range(n)]) for n in (1, 3, 129)]
+    elif tn == "SQ1":
+        n = len(tree[2])
+        pats = [[False] * n, [True] * n] + [[j == i for j in range(n)] for i in range(n)] + [[j >= i for j in range(n)] for i in range(1, n)]
+        out = [("S", [("!", bool((i + k) % 2)) if p else ("_",) for k, p in enumerate(pat)]) for i, pat in enumerate(pats)]
     else:
         out = [value(tree, rng) for _ in range(12)]
     return out
